@@ -62,10 +62,18 @@ type directPick struct {
 	scheduled bool // a time given to Schedule (after that queueing call) had come
 }
 
+// Signature of the recorded finding about a pick that races with a direct start (see props/C07.findings.json).
+const sigPickRaced = "C07:queue-pick-raced-by-direct-start"
+
+// qhRun: a started queued task — started by the queue handler, or (direct) a task that was waiting in a queue
+// and was started directly by the schedule handler.
 type qhRun struct {
-	t        int
-	startNow int64
-	ended    bool
+	t         int
+	startNow  int64
+	ended     bool
+	direct    bool
+	startLine int
+	spawnIdx  int // direct: index of the event that reports its queue slot as taken (-1 = not yet)
 }
 
 func monitor(c hxlib.Case, outs []string) (vs []hxlib.Violation) {
@@ -99,6 +107,9 @@ func monitor(c hxlib.Case, outs []string) (vs []hxlib.Violation) {
 	waitA, waitP, waitN := map[int]int{}, map[int]int{}, map[int]int{}
 	pickedPrio, pickedNorm := map[int]bool{}, map[int]bool{}
 	var qhRuns []*qhRun
+	// own books of the queue slots: executions reported as started (slot taken) and not yet reported as handed back;
+	// zeroSince = the first event since the queue handler last entered its wait after which no slot was taken (-1 = none)
+	slotCnt, zeroSince, waitSeen := 0, -1, false
 	var endNow int64
 	ended := ""
 
@@ -195,6 +206,28 @@ func monitor(c hxlib.Case, outs []string) (vs []hxlib.Violation) {
 		case "finish":
 			if _, t := tk(3); t != nil {
 				t.inExec = false
+			}
+		case "qhwait":
+			waitSeen, zeroSince = true, -1
+			if slotCnt == 0 {
+				zeroSince = i
+			}
+		case "spawn":
+			slotCnt++
+			if k, t := tk(3); t != nil {
+				for j := len(qhRuns) - 1; j >= 0; j-- {
+					if q := qhRuns[j]; q.t == k && q.direct && q.spawnIdx < 0 {
+						q.spawnIdx = i
+						break
+					}
+				}
+			}
+		case "slotfree":
+			if slotCnt > 0 {
+				slotCnt--
+			}
+			if slotCnt == 0 && waitSeen && zeroSince < 0 {
+				zeroSince = i
 			}
 		case "queue", "queuep":
 			k, t := tk(3)
@@ -306,10 +339,26 @@ func monitor(c hxlib.Case, outs []string) (vs []hxlib.Violation) {
 			// serial: every run started earlier by the queue handler has returned, was cancelled, or
 			// exceeded the execution-wait limit
 			for _, q := range qhRuns {
-				if !q.ended && ts[q.t].cancelIdx < 0 && now-q.startNow < execWait {
+				if q.ended || ts[q.t].cancelIdx >= 0 || now-q.startNow >= execWait {
+					continue
+				}
+				if !q.direct {
 					add("C07:queue-not-serial", fmt.Sprintf("queue handler picked task %d while task %d (started by it before) still runs, is not cancelled and is within the execution-wait limit", k, q.t), i)
+					continue
+				}
+				// A queued task that the schedule handler started directly (max-delay exception) is a started queued
+				// task like any other: the next one is due only after it returned, was cancelled or exceeded the
+				// execution-wait limit. One class is the recorded finding: the direct start took its slot only after the
+				// queue handler had found all slots free (between the handler's slot check and its pick).
+				// (a trace that does not show the handler entering its wait before this pick — it did so before the
+				// recording began — cannot tell the two apart and is read in the implementation's favour)
+				if !waitSeen || zeroSince >= 0 && (q.spawnIdx < 0 || q.spawnIdx > zeroSince) {
+					add(sigPickRaced, fmt.Sprintf("queue handler picked task %d while task %d, a waiting task started directly by the schedule handler (event %d), still runs, is not cancelled and is within the execution-wait limit; the direct start took its queue slot (event %d, -1 = not yet) after the queue handler had found every slot free (event %d) and before it picked", k, q.t, q.startLine, q.spawnIdx, zeroSince), i)
+				} else {
+					add("C07:queue-not-serial", fmt.Sprintf("queue handler picked task %d while task %d — a waiting task that the schedule handler started directly before (event %d, queue slot reported as taken at event %d) — still runs, is not cancelled and is within the execution-wait limit; since that start no moment without a started, unreturned task was seen (the queue handler entered its wait after it, or a task ahead returned after it)", k, q.t, q.startLine, q.spawnIdx), i)
 				}
 			}
+			zeroSince, waitSeen = -1, false
 			// order
 			exp, cls := -1, ""
 			best := func(m map[int]int, latest bool) int {
@@ -347,6 +396,13 @@ func monitor(c hxlib.Case, outs []string) (vs []hxlib.Violation) {
 			k, t := tk(4)
 			if t == nil || len(f) < 6 {
 				continue
+			}
+			// own books: was the task waiting in a queue (or picked out of one) when this section began?
+			wasQueued := pickedPrio[k] || pickedNorm[k]
+			for _, m := range []map[int]int{waitA, waitP, waitN} {
+				if _, in := m[k]; in {
+					wasQueued = true
+				}
 			}
 			delete(waitA, k)
 			delete(waitP, k)
@@ -400,7 +456,7 @@ func monitor(c hxlib.Case, outs []string) (vs []hxlib.Violation) {
 					// tasks started through the queue before it (exempted direct starts are not links of that chain) must
 					// have returned, been cancelled or exceeded the execution-wait limit.
 					for _, q := range qhRuns {
-						if q.ended || q.t == k || ts[q.t].cancelIdx >= 0 || now-q.startNow >= execWait {
+						if q.direct || q.ended || q.t == k || ts[q.t].cancelIdx >= 0 || now-q.startNow >= execWait {
 							continue
 						}
 						dl := "it has no max delay on the books (no queueing call with a max delay since it last left the schedule)"
@@ -418,7 +474,11 @@ func monitor(c hxlib.Case, outs []string) (vs []hxlib.Violation) {
 					}
 				}
 				if f[3] == "qh" {
-					qhRuns = append(qhRuns, &qhRun{t: k, startNow: now})
+					qhRuns = append(qhRuns, &qhRun{t: k, startNow: now, startLine: i, spawnIdx: -1})
+				} else if f[3] == "sh" && wasQueued {
+					// "Queued tasks are started one after the other": a queued task started directly is a started queued
+					// task; a task that was in no queue (only scheduled) is not counted
+					qhRuns = append(qhRuns, &qhRun{t: k, startNow: now, startLine: i, spawnIdx: -1, direct: true})
 				}
 			default:
 				t.pendingSched = 0
